@@ -230,3 +230,114 @@ Require Import LinkProofs.
 Theorem C14_merge_premise : merge_spec.
 Proof. exact merge_spec_holds. Qed.
 Print Assumptions C14_merge_premise.
+
+(* ---------------------------------------------------------------- accessors of Automaton and State
+   Automaton::{initial_state, state, states, num_states, num_final_states, final_states,
+   default_successor, class_next, char_set_next} and State::{num_successors, has_default_successor,
+   default_successor, valid_class_id, char_maps_to_default, char_classes, class_of_char, char_picks,
+   char_ranges} describe the same transition structure as next.  A `&State` is the state record;
+   [a_state_at a k] = &self.states[k] (None = panic). *)
+Open Scope nat_scope.
+
+(* char_set_next never panics on a valid set; when the set lies inside one class the result is the
+   state next(s, x) reaches for EVERY character x of the set; Err(AmbiguousCharSet) (= Some None)
+   exactly when no class contains the set *)
+Theorem C14_char_set_next : forall a i s set,
+  aut_wf a -> nth_error (astates a) i = Some s -> cs_valid set ->
+  exists r, a_char_set_next a s set = Some r /\
+    (forall cid, (forall x, mem x set -> in_class (a_classes s) x cid) ->
+       exists t, r = Some t /\ a_class_next a s cid = Some t /\
+                 a_id t < num_states a /\ a_state a (a_id t) = t /\
+                 forall x, mem x set -> a_next a s x = Some (a_id t)) /\
+    (r = None <-> forall cid, ~ forall x, mem x set -> in_class (a_classes s) x cid).
+Proof. exact char_set_next_spec. Qed.
+Print Assumptions C14_char_set_next.
+
+(* ... in particular when the set straddles two classes *)
+Theorem C14_char_set_next_two_classes : forall a i s set x y,
+  aut_wf a -> nth_error (astates a) i = Some s -> cs_valid set -> mem x set -> mem y set ->
+  ~ same_class (a_classes s) x y -> a_char_set_next a s set = Some None.
+Proof. exact char_set_next_two_classes. Qed.
+Print Assumptions C14_char_set_next_two_classes.
+
+(* ... and a singleton set is a character *)
+Theorem C14_char_set_next_singleton : forall a i s c,
+  aut_wf a -> nth_error (astates a) i = Some s -> good c ->
+  exists t, a_char_set_next a s (c, c) = Some (Some t) /\ a_next a s c = Some (a_id t).
+Proof. exact char_set_next_singleton. Qed.
+Print Assumptions C14_char_set_next_singleton.
+
+(* num_successors, char_ranges, has_default_successor, default_successor (of the state and of the
+   automaton: no panic, the state with that id), char_maps_to_default against next *)
+Theorem C14_state_accessors : forall a i s, aut_wf a -> nth_error (astates a) i = Some s ->
+  s_num_successors s = length (a_succ s) /\ s_char_ranges s = ivs (a_classes s) /\
+  (s_has_default_successor s = true <-> exists d, s_default_successor s = Some d) /\
+  (exists r, a_default_successor a s = Some r /\
+     (forall d, s_default_successor s = Some d ->
+        r = Some (a_state a d) /\ d < num_states a /\ a_id (a_state a d) = d) /\
+     (s_default_successor s = None -> r = None)) /\
+  (forall c, good c -> exists b, s_char_maps_to_default s c = Some b /\
+     (b = true <-> (exists d, s_default_successor s = Some d) /\ in_class (a_classes s) c CComp) /\
+     (b = true -> a_next a s c = s_default_successor s) /\
+     (b = false -> exists j, in_class (a_classes s) c (CInt j) /\ a_next a s c = nth_error (a_succ s) j)).
+Proof. exact state_accessors_spec. Qed.
+Print Assumptions C14_state_accessors.
+
+(* char_classes = the valid class ids = the non-empty classes; char_picks holds one member of each,
+   in the same order; class_next of a listed class is what next returns for its pick *)
+Theorem C14_char_classes_picks : forall a i s, aut_wf a -> nth_error (astates a) i = Some s ->
+  s_char_classes s = map CInt (seq 0 (s_num_successors s)) ++
+                     (if s_valid_class_id s CComp then [CComp] else []) /\
+  NoDup (s_char_classes s) /\
+  (forall cid, In cid (s_char_classes s) <-> s_valid_class_id s cid = true) /\
+  (forall cid, s_valid_class_id s cid = true <-> exists x, good x /\ in_class (a_classes s) x cid) /\
+  Forall2 (fun cid x => good x /\ in_class (a_classes s) x cid /\ s_class_of_char s x = Some cid /\
+             exists t, a_class_next a s cid = Some t /\ a_next a s x = Some (a_id t) /\
+                       a_id t < num_states a /\ a_state a (a_id t) = t)
+          (s_char_classes s) (s_char_picks s).
+Proof. exact char_classes_picks_spec. Qed.
+Print Assumptions C14_char_classes_picks.
+
+(* valid_class_id(Complement) means "the complementary class is non-empty"; it implies that a default
+   successor is defined, and is equivalent to it when no default is dead; then char_classes lists
+   exactly the classes of the edges, in the order of Automaton::edges *)
+Theorem C14_valid_complement_vs_default : forall a i s, aut_wf a -> nth_error (astates a) i = Some s ->
+  (s_valid_class_id s CComp = true -> s_has_default_successor s = true) /\
+  (no_dead_default a -> (s_valid_class_id s CComp = true <-> s_has_default_successor s = true)) /\
+  (no_dead_default a ->
+     map (fun cid => option_map a_id (a_class_next a s cid)) (s_char_classes s) = map Some (edges s)).
+Proof. exact valid_complement_vs_default. Qed.
+Print Assumptions C14_valid_complement_vs_default.
+
+(* the documentation of State::valid_class_id ("Complement is valid if there's a default successor")
+   is false for an automaton build_unchecked accepts (build rejects it) *)
+Theorem C14_valid_class_id_doc_refuted :
+  aut_wf dd_aut /\ s_has_default_successor (a_state dd_aut 0) = true /\
+  s_valid_class_id (a_state dd_aut 0) CComp = false /\
+  s_char_classes (a_state dd_aut 0) = [CInt 0] /\ edges (a_state dd_aut 0) = [0; 1].
+Proof. exact valid_class_id_doc_refuted. Qed.
+Print Assumptions C14_valid_class_id_doc_refuted.
+
+(* initial_state, state(k) (panic exactly out of range), states, num_states, num_final_states,
+   final_states *)
+Theorem C14_automaton_accessors : forall a, aut_wf a ->
+  a_initial_state a = Some (a_state a (initial a)) /\ a_id (a_state a (initial a)) = initial a /\
+  (forall k, k < a_num_states a -> a_state_at a k = Some (a_state a k) /\ a_id (a_state a k) = k) /\
+  (forall k, a_num_states a <= k -> a_state_at a k = None) /\
+  map a_id (a_states a) = seq 0 (a_num_states a) /\
+  length (a_final_states a) = a_num_final_states a /\
+  (forall t, In t (a_final_states a) <-> In t (a_states a) /\ a_final t = true) /\
+  map a_id (a_final_states a) = filter (fun k => a_final (a_state a k)) (seq 0 (a_num_states a)).
+Proof. exact automaton_accessors_spec. Qed.
+Print Assumptions C14_automaton_accessors.
+
+Example C14_example_accessors :
+  let s0 := a_state c14_aut 0 in
+  option_map (option_map a_id) (a_char_set_next c14_aut s0 (97%N, 122%N)) = Some (Some 2) /\
+  option_map (option_map a_id) (a_char_set_next c14_aut s0 (0%N, 96%N)) = Some (Some 3) /\
+  a_char_set_next c14_aut s0 (96%N, 97%N) = Some None /\
+  s_char_classes s0 = [CInt 0; CComp] /\ s_char_picks s0 = [97%N; 0%N] /\
+  s_char_maps_to_default s0 48%N = Some true /\ s_char_maps_to_default s0 100%N = Some false /\
+  option_map (option_map a_id) (a_default_successor c14_aut s0) = Some (Some 3) /\
+  map a_id (a_final_states c14_aut) = [2].
+Proof. vm_compute. repeat split. Qed.
